@@ -34,6 +34,7 @@ OpOf(e) == CASE e.ev = "add"    -> [op |-> "add", n |-> e.n]
              [] e.ev = "addr"   -> [op |-> "addr", n |-> e.n, r |-> e.r]
              [] e.ev = "remove" -> [op |-> "remove", n |-> e.n]
              [] e.ev = "lookup" -> [op |-> "lookup"]
+             [] e.ev = "build"  -> [op |-> "build", mem |-> e.mem]
 
 IsReAdd(m, o) == o.op \in AddOps /\ m[o.n] # Absent
 
